@@ -25,10 +25,10 @@ def gen_shape(rng, maxpix=48, ndim=None):
             return shape
 
 
-def gen_values(rng, n, shape, big=False):
+def gen_values(rng, n, shape, big=False, bigint=False):
     """integer pixel values in model units with a chosen tie structure; returns (k list, kind)"""
     kind = rng.choice(['perm', 'perm', 'small', 'small', 'plateau', 'nested', 'chain', 'checker', 'random', 'two',
-                       'perm', 'small', 'plateau', 'nested', 'random', 'neardelta', 'bigint' if big else 'random',
+                       'perm', 'small', 'plateau', 'nested', 'random', 'neardelta', 'bigint' if (big or bigint) else 'random',
                        'fullrange', 'decimal' if big else 'small'])
     if kind == 'perm':
         k = list(range(1, n + 1))
@@ -142,7 +142,7 @@ def gen_compute_case(rng, maxpix=48, force=None):
     n = 1
     for s in shape:
         n *= s
-    k, kind = gen_values(rng, n, shape, big=bool(force.get('big')))
+    k, kind = gen_values(rng, n, shape, big=bool(force.get('big')), bigint=bool(force.get('bigint')))
     fb = force.get('fb', rng.choice([0, 0, 0, 0, 1, 2, 4, 30, 40]))
     if kind in ('neardelta', 'bigint', 'fullrange'):
         fb = 0
@@ -204,6 +204,9 @@ def gen_compute_case(rng, maxpix=48, force=None):
         lo = min(x for x in k if x is not None)
         case['k'] = [x - lo for x in k]
     case['reuse'] = rng.random() < 0.3
+    # how the numeric parameters are spelled: Python numbers, numpy scalars, or a fractional min_npix
+    # (min_npix = n - 0.5 demands the same as n: "at least n pixels")
+    case['pstyle'] = rng.choices(['py', 'np', 'half'], weights=[75, 15, 10])[0]
     if 'layout' not in force:
         case['layout'] = rng.choices(['C', 'F', 'strided', 'readonly', 'bigendian'], weights=[66, 14, 9, 5, 6])[0]
     if kind in ('fullrange', 'decimal'):
